@@ -106,6 +106,7 @@ fn delta_grouping(n_ops: usize, k0: u8, k1: u8, k2: u8) {
             } else if o.kind == 1 {
                 assert!(o.version > last_version, "C09: non-increasing key-value versions accepted");
                 assert!(d.node_deltas[sec].key_values[kvs_in_sec].version == o.version, "C03: key-value version altered / cross-wired");
+                assert!(d.node_deltas[sec].max_version >= o.version, "C09: decoded section announces a max version below one of its key-values (applying it aborts the node)");
                 kvs_in_sec += 1; last_version = o.version;
             } else { last_version = o.version; }
             i += 1;
